@@ -5,6 +5,7 @@ class C12(TxCheck):
     ID = "C12"
     MODE = "c12"
     LEVEL = "proof"
+    MODEL_CODES = [11, 12, 13, 14, 17, 902]
     N_QUICK = 100
     N_THOROUGH = 4000
     KINDS = ["balance_differs_from_ledger", "spendable_set_differs_from_ledger", "lease_list_differs_from_ledger", "store_error"]
@@ -31,7 +32,9 @@ class C12(TxCheck):
                     n["lease_unknown"] += l == "unknown"
                 if e["k"] == "release":
                     n["release_notallowed"] += l == "notallowed"
-        return dict(lease_outcomes=n)
+        d = super().extra_coverage(cases)
+        d.update(lease_outcomes=n)
+        return d
 
 
 CHECK = C12
